@@ -6,6 +6,9 @@ package core
 // reloads, publishers arriving (paths created on demand) and leaving. After every step, once every asynchronous
 // path.reloadConf has landed, the live paths are recorded: name, confName, configuration (interned by
 // reflect.DeepEqual, field by field), capture groups, object identity, and what conf.FindPathConf says for the name.
+// A step may be a race (class raced-reloads): some path goroutines are held busy (they sit in doDescribe, sending an
+// answer nobody takes yet), two or three reloads are issued back to back, then everything is released and the
+// observation is taken once no hand-over goroutine is left.
 // Also: the reflect field list of conf.Path and pathConfCanBeUpdated on pairs differing in exactly one field
 // (ties the generated hot-field table to the code).
 
@@ -14,6 +17,7 @@ import (
 	"os"
 	"path/filepath"
 	"reflect"
+	"runtime"
 	"sort"
 	"strings"
 	"sync/atomic"
@@ -30,9 +34,9 @@ import (
 
 type vC15Pub struct{ closed atomic.Bool }
 
-func (p *vC15Pub) Close()                                      { p.closed.Store(true) }
-func (p *vC15Pub) Log(_ logger.Level, _ string, _ ...any)      {}
-func (p *vC15Pub) APISourceDescribe() *defs.APIPathSource      { return nil }
+func (p *vC15Pub) Close()                                 { p.closed.Store(true) }
+func (p *vC15Pub) Log(_ logger.Level, _ string, _ ...any) {}
+func (p *vC15Pub) APISourceDescribe() *defs.APIPathSource { return nil }
 
 // ---- interning of configurations -------------------------------------------------------
 
@@ -339,6 +343,70 @@ func vC15Mutate(r *vRand, s vC15Spec, live, liveConfs []string) (vC15Spec, strin
 	return n, what
 }
 
+// racedSpecs derives two or three successive specifications from s, mostly by changes that keep the live paths
+// (hot changes, renames within a family, a static configuration appearing under a live path)
+func vC15RacedSpecs(r *vRand, s vC15Spec, live, liveConfs []string) ([]vC15Spec, string) {
+	var out []vC15Spec
+	var whats []string
+	cur := s
+	for i := 0; i < 2+r.Intn(2); i++ {
+		n := vC15CopySpec(cur)
+		what := ""
+		serving := []string{}
+		for _, k := range vC15AllKeys(n) {
+			for _, c := range liveConfs {
+				if c == k {
+					serving = append(serving, k)
+					break
+				}
+			}
+		}
+		x := r.Intn(10)
+		switch {
+		case x < 5 && len(serving) > 0:
+			k := vPick(r, serving)
+			v := n[k]
+			v[1] = (v[1] + 1 + r.Intn(5)) % 6
+			n[k] = v
+			what = "hot-change " + k
+		case x < 7 && len(serving) > 0:
+			k := vPick(r, serving)
+			for _, members := range vC15Families {
+				if indexOf(members, k) > 0 || members[0] == k {
+					k2 := members[(r.Intn(len(members)-1)+1+indexOf(members, k))%len(members)]
+					if _, ok := n[k2]; !ok {
+						v := n[k]
+						delete(n, k)
+						if r.Chance(1, 2) {
+							v[1] = (v[1] + 1) % 6
+						}
+						n[k2] = v
+						what = "rename " + k + " -> " + k2
+					}
+				}
+			}
+		case x < 9 && len(live) > 0:
+			i := r.Intn(len(live))
+			if _, ok := n[live[i]]; !ok && conf.IsValidPathName(live[i]) == nil {
+				v := n[liveConfs[i]]
+				if r.Chance(1, 2) {
+					v[1] = (v[1] + 1) % 6
+				}
+				n[live[i]] = v
+				what = "add-static " + live[i]
+			}
+		}
+		if what == "" {
+			n, what = vC15Mutate(r, cur, live, liveConfs)
+		}
+		vC15DropCatchAllDup(n)
+		out = append(out, n)
+		whats = append(whats, what)
+		cur = n
+	}
+	return out, strings.Join(whats, "; ")
+}
+
 // ---- observation -------------------------------------------------------------------------
 
 type vC15Live struct {
@@ -460,10 +528,68 @@ func (h *vC15Run) confsTerm(m map[string]*conf.Path) string {
 }
 
 type vC15Step struct {
-	kind string // reload | create | leave
-	spec vC15Spec
-	name string
-	what string
+	kind  string // reload | create | leave | raced
+	spec  vC15Spec
+	name  string
+	what  string
+	specs []vC15Spec // raced: the reloads, in order
+	block int        // raced: 0 = hold every path that has a publisher, 1 = every other one, 2 = none
+}
+
+// number of goroutines that are handing a configuration over to a path (whatever the mechanism is called)
+func vC15HandOvers() int {
+	buf := make([]byte, 1<<20)
+	buf = buf[:runtime.Stack(buf, true)]
+	n := 0
+	for _, g := range strings.Split(string(buf), "\n\n") {
+		if strings.Contains(g, "core.(*path).reload") {
+			n++
+		}
+	}
+	return n
+}
+
+// raced issues the reloads back to back while the chosen paths cannot receive, then releases them and waits until
+// every hand-over has landed
+func (h *vC15Run) raced(ncs []map[string]*conf.Path, hold []string) {
+	var reqs []defs.PathDescribeReq
+	for _, name := range hold {
+		// the real two-phase describe, done by hand: the path goroutine stays in doDescribe until the answer is taken
+		req := defs.PathDescribeReq{AccessRequest: defs.PathAccessRequest{Name: name, SkipAuth: true},
+			Res: make(chan defs.PathDescribeRes)}
+		h.pm.chDescribe <- req
+		res1 := <-req.Res
+		if res1.Err != nil {
+			h.t.Fatalf("describe %s: %v", name, res1.Err)
+		}
+		pa := res1.Path.(*path)
+		select {
+		case pa.chDescribe <- req:
+			reqs = append(reqs, req)
+		case <-pa.ctx.Done():
+		}
+	}
+	done := make(chan struct{})
+	go func() {
+		for _, nc := range ncs {
+			h.pm.ReloadPathConfs(nc)
+		}
+		h.paths() // the manager has processed them all
+		close(done)
+	}()
+	select {
+	case <-done:
+		time.Sleep(2 * time.Millisecond) // let the hand-over goroutines reach the paths
+	case <-time.After(150 * time.Millisecond): // the manager waits for a held path it has closed
+	}
+	for _, req := range reqs {
+		<-req.Res
+	}
+	<-done
+	deadline := time.Now().Add(2 * time.Second)
+	for vC15HandOvers() > 0 && time.Now().Before(deadline) {
+		time.Sleep(300 * time.Microsecond)
+	}
 }
 
 // runs one history; returns the Coq term, the description, the class
@@ -523,12 +649,46 @@ func vC15History(t *testing.T, dir string, initSpec vC15Spec, gen func(k int, cu
 			h.pm.ReloadPathConfs(nc)
 			opTerm = cqApp("HReload", h.confsTerm(nc))
 			opDesc = "reload[" + st.what + "] " + strings.Join(vC15AllKeys(st.spec), " ")
+		case "raced":
+			var ncs []map[string]*conf.Path
+			var terms, whats []string
+			for _, sp := range st.specs {
+				nc, err := vC15Load(dir, sp)
+				if err != nil {
+					continue
+				}
+				note(nc)
+				ncs = append(ncs, nc)
+				terms = append(terms, h.confsTerm(nc))
+				whats = append(whats, strings.Join(vC15AllKeys(sp), " "))
+				curSpec = sp
+			}
+			if len(ncs) == 0 {
+				continue
+			}
+			var hold []string
+			k := 0
+			for _, p := range prev {
+				if pub, ok := h.pubs[p.name]; ok && !pub.closed.Load() {
+					if st.block == 0 || (st.block == 1 && k%2 == 0) {
+						hold = append(hold, p.name)
+					}
+					k++
+				}
+			}
+			h.cur = ncs[len(ncs)-1]
+			h.raced(ncs, hold)
+			feat["raced-reloads"] = true
+			opTerm = cqApp("HRaced", cqList(terms))
+			opDesc = fmt.Sprintf("raced[%s; held: %s] ", st.what, strings.Join(hold, ",")) + strings.Join(whats, " | ")
 		case "create":
 			isLive := false
 			for _, n := range live {
 				isLive = isLive || n == st.name
 			}
-			if !isLive {
+			if pub, ok := h.pubs[st.name]; !isLive || !ok || pub.closed.Load() {
+				// (a live path without publisher - a static one - gets one too: invisible to the model, but the
+				// path can then be held busy in a race)
 				pub := &vC15Pub{}
 				_, err := h.pm.AddPublisher(defs.PathAddPublisherReq{
 					Author:        pub,
@@ -577,7 +737,7 @@ func vC15History(t *testing.T, dir string, initSpec vC15Spec, gen func(k int, cu
 		for _, p := range cur {
 			curBy[p.name] = p
 		}
-		if st.kind == "reload" {
+		if st.kind == "reload" || st.kind == "raced" {
 			for _, p := range prev {
 				q, ok := curBy[p.name]
 				switch {
@@ -618,7 +778,7 @@ func vC15History(t *testing.T, dir string, initSpec vC15Spec, gen func(k int, cu
 	}
 
 	class := "plain"
-	for _, f := range []string{"moved-kept", "moved-closed", "hot-kept", "recreated", "removed"} {
+	for _, f := range []string{"raced-reloads", "moved-kept", "moved-closed", "hot-kept", "recreated", "removed"} {
 		if feat[f] {
 			class = f
 			break
@@ -731,11 +891,55 @@ func TestVerifC15(t *testing.T) {
 			{kind: "reload", spec: vC15Spec{"~^bar$": {1, 1}, "cam1": {0, 0}}, what: "hot"},
 			{kind: "reload", spec: vC15Spec{"cam1": {0, 0}}, what: "remove"}}},
 	}
+	// races (fixed in /repo: hand-overs are received in the order in which they were issued; the manager closes an
+	// idle path only if its own record of the path is a regexp configuration)
+	raced := []directed{
+		// two hot reloads of a static path
+		{vC15Spec{"foo": {0, 0}}, []vC15Step{{kind: "create", name: "foo"},
+			{kind: "raced", specs: []vC15Spec{{"foo": {0, 1}}, {"foo": {0, 2}}}, what: "hot; hot"}}},
+		// a move to another regexp configuration, then a hot reload of that one
+		{vC15Spec{"~^(f)oo$": {0, 0}}, []vC15Step{{kind: "create", name: "foo"},
+			{kind: "raced", specs: []vC15Spec{{"~^f(oo)$": {0, 1}}, {"~^f(oo)$": {0, 2}}}, what: "rename; hot"}}},
+		// a hot reload, then a move
+		{vC15Spec{"~^(f)oo$": {0, 0}}, []vC15Step{{kind: "create", name: "foo"},
+			{kind: "raced", specs: []vC15Spec{{"~^(f)oo$": {0, 1}}, {"~^f(oo)$": {0, 2}}}, what: "hot; rename"}}},
+		// the same, nobody held: the hand-over goroutines race on their own
+		{vC15Spec{"foo": {0, 0}, "bar": {0, 0}}, []vC15Step{
+			{kind: "raced", specs: []vC15Spec{{"foo": {0, 1}, "bar": {0, 1}}, {"foo": {0, 2}, "bar": {0, 2}},
+				{"foo": {0, 3}, "bar": {0, 3}}}, what: "hot; hot; hot", block: 2}}},
+	}
+	nRaced := n / 8
+	if nRaced < 8 {
+		nRaced = 8
+	}
 	for i := 0; i < n; i++ {
 		var coq, class string
 		var desc map[string]any
 		var nt bool
-		if i < len(corpus) {
+		if j := i - len(corpus); j >= 0 && j < len(raced) {
+			d := raced[j]
+			coq, desc, class, nt = vC15History(t, dir, d.init, func(k int, _ vC15Spec, _, _ []string) *vC15Step {
+				if k >= len(d.steps) {
+					return nil
+				}
+				return &d.steps[k]
+			})
+			desc["raced-corpus"] = j
+		} else if j >= len(raced) && j < len(raced)+nRaced {
+			// publishers arrive, then one or two races
+			nPub := 2 + r.Intn(3)
+			nSteps := nPub + 1 + r.Intn(2)
+			coq, desc, class, nt = vC15History(t, dir, vC15RandomSpec(r), func(k int, cur vC15Spec, live, liveConfs []string) *vC15Step {
+				switch {
+				case k >= nSteps:
+					return nil
+				case k < nPub:
+					return &vC15Step{kind: "create", name: vPick(r, vC15Names[:6])}
+				}
+				specs, what := vC15RacedSpecs(r, cur, live, liveConfs)
+				return &vC15Step{kind: "raced", specs: specs, what: what, block: r.Intn(3)}
+			})
+		} else if i < len(corpus) {
 			d := corpus[i]
 			coq, desc, class, nt = vC15History(t, dir, d.init, func(k int, _ vC15Spec, _, _ []string) *vC15Step {
 				if k >= len(d.steps) {
